@@ -11,9 +11,14 @@ namespace FatVerif
 /-- byte offset of the status flags in the boot sector -/
 def statusOff (fs : FsState) : Nat := if fs.fatType == .fat32 then 0x41 else 0x25
 
+/-- the status byte `set_dirty_flag(dirty)` writes: the two flag bits, and bits 2–7 of the byte read at mount
+    (`flags.encode() | (reserved_1 & !0x03)`, as a `u8`) -/
+def statusByte (fs : FsState) (dirty : Bool) : Nat :=
+  (encodeStatus (fs.bpbDirty || dirty) fs.bpbIoErr ||| (fs.statusRaw / 4 * 4)) % 256
+
 /-- the log record of a status-byte update -/
 def statusWrite (fs : FsState) (dirty : Bool) : LogItem :=
-  .write (statusOff fs) [encodeStatus (fs.bpbDirty || dirty) fs.bpbIoErr % 256]
+  .write (statusOff fs) [statusByte fs dirty]
 
 theorem encodeStatus_lt (a b : Bool) : encodeStatus a b % 256 = encodeStatus a b := by
   cases a <;> cases b <;> rfl
@@ -25,7 +30,7 @@ theorem setDirtyFlag_unfold (b : Bool) : setDirtyFlag b =
     Prog.bind Prog.getFs (fun fs =>
       if ((fs.bpbDirty || b) == fs.curDirty && fs.bpbIoErr == fs.curIoErr) = true then Prog.pure ()
       else Prog.bind (Prog.seekStart (statusOff fs)) (fun _ =>
-        Prog.bind (writeU8 devStrm () (encodeStatus (fs.bpbDirty || b) fs.bpbIoErr)) (fun _ =>
+        Prog.bind (writeU8 devStrm () (encodeStatus (fs.bpbDirty || b) fs.bpbIoErr ||| (fs.statusRaw / 4 * 4))) (fun _ =>
           Prog.modifyFs fun fs' => { fs' with curDirty := fs.bpbDirty || b, curIoErr := fs.bpbIoErr }))) := rfl
 
 theorem statusCurrent_iff (fs : FsState) (b : Bool) :
@@ -137,7 +142,7 @@ theorem unmount_restores (d : Dev) {u : Unit} {d' : Dev} (hr : run unmountIntern
     ∃ d1 : Dev, run flushFsInfo d = (.ok (), d1) ∧
       ((d.fs.curDirty = d.fs.bpbDirty ∧ d.fs.curIoErr = d.fs.bpbIoErr) → d'.log = d1.log) ∧
       (¬ (d.fs.curDirty = d.fs.bpbDirty ∧ d.fs.curIoErr = d.fs.bpbIoErr) →
-        d'.log = .write (statusOff d.fs) [encodeStatus d.fs.bpbDirty d.fs.bpbIoErr] :: d1.log) := by
+        d'.log = .write (statusOff d.fs) [statusByte d.fs false] :: d1.log) := by
   have hr' : run (Prog.bind flushFsInfo (fun _ => setDirtyFlag false)) d = (.ok u, d') := hr
   rcases run_bind_cases hr' with ⟨_, d1, h1, h2⟩ | ⟨e, _, he⟩
   · have hfs := flushFsInfo_fs d h1
@@ -147,6 +152,7 @@ theorem unmount_restores (d : Dev) {u : Unit} {d' : Dev} (hr : run unmountIntern
     have hbd : d1.fs.bpbDirty = d.fs.bpbDirty := by rw [hfs]
     have hbi : d1.fs.bpbIoErr = d.fs.bpbIoErr := by rw [hfs]
     have hft : d1.fs.fatType = d.fs.fatType := by rw [hfs]
+    have hraw : d1.fs.statusRaw = d.fs.statusRaw := by rw [hfs]
     have hcur : StatusCurrent d1.fs false ↔ (d.fs.curDirty = d.fs.bpbDirty ∧ d.fs.curIoErr = d.fs.bpbIoErr) := by
       simp only [StatusCurrent, Bool.or_false, hcd, hci, hbd, hbi]
       constructor <;> rintro ⟨a, b⟩ <;> exact ⟨a.symm, b.symm⟩
@@ -155,8 +161,32 @@ theorem unmount_restores (d : Dev) {u : Unit} {d' : Dev} (hr : run unmountIntern
     · intro h
       have := hsp.2.2 (fun hc => h (hcur.mp hc))
       rw [this]
-      simp only [statusWrite, statusOff, Bool.or_false, hbd, hbi, hft, encodeStatus_lt]
+      simp only [statusWrite, statusByte, statusOff, hbd, hbi, hft, hraw]
   · cases he
+
+theorem statusByte_table : ∀ r, r < 256 →
+    (encodeStatus ((r % 2 == 1) || false) (r / 2 % 2 == 1) ||| (r / 4 * 4)) % 256 = r := by decide +kernel
+
+/-- if the mounted state records the mount-time status byte (`statusRaw`, one byte) and `bpbDirty`/`bpbIoErr` are its
+    bits 0 and 1 — what `mount` sets up (`Bpb.statusDirty`, `Bpb.statusIoError`, `statusRaw := reserved_1`) — the byte
+    `set_dirty_flag(false)` writes is exactly the mount-time byte -/
+theorem statusByte_restores (fs : FsState) (hraw : fs.statusRaw < 256)
+    (hd : fs.bpbDirty = (fs.statusRaw % 2 == 1)) (hi : fs.bpbIoErr = (fs.statusRaw / 2 % 2 == 1)) :
+    statusByte fs false = fs.statusRaw := by
+  unfold statusByte
+  rw [hd, hi]
+  exact statusByte_table _ hraw
+
+/-- **`unmount_restores_mount_byte`** (closes the former finding F16: bits 2–7 of the status byte were cleared): under
+    those hypotheses the status record `unmount_internal` appends — when the current flags differ from the mount-time
+    ones — carries the mount-time byte, bits 2–7 included -/
+theorem unmount_restores_mount_byte (d : Dev) {u : Unit} {d' : Dev} (hr : run unmountInternal d = (.ok u, d'))
+    (hraw : d.fs.statusRaw < 256) (hd : d.fs.bpbDirty = (d.fs.statusRaw % 2 == 1))
+    (hi : d.fs.bpbIoErr = (d.fs.statusRaw / 2 % 2 == 1))
+    (hdiff : ¬ (d.fs.curDirty = d.fs.bpbDirty ∧ d.fs.curIoErr = d.fs.bpbIoErr)) :
+    ∃ d1 : Dev, run flushFsInfo d = (.ok (), d1) ∧ d'.log = .write (statusOff d.fs) [d.fs.statusRaw] :: d1.log := by
+  obtain ⟨_, _, _, d1, h1, _, h2⟩ := unmount_restores d hr
+  exact ⟨d1, h1, by rw [h2 hdiff, statusByte_restores d.fs hraw hd hi]⟩
 
 /-- **`file_write_marks_dirty_first`**: in `File::write` on a volume whose dirty flag is not yet set, the status byte is
     the first thing written: the records the call appends to the log are either all inside the status byte (the call
@@ -166,7 +196,7 @@ theorem file_write_marks_dirty_first (f : FileH) (buf : List Nat) (d : Dev) (hcl
     {r d'} (hr : run (f.write buf) d = (r, d')) :
     ∃ items, d'.log = items ++ d.log ∧
       ((∀ it ∈ items, it.within (statusOff d.fs) (statusOff d.fs + 1)) ∨
-       (∃ rest, items = rest ++ [.write (statusOff d.fs) [encodeStatus true d.fs.bpbIoErr]])) := by
+       (∃ rest, items = rest ++ [.write (statusOff d.fs) [statusByte d.fs true]])) := by
   unfold FileH.write at hr
   rcases run_bind_cases hr with ⟨fs, d0, h0, hr⟩ | ⟨e, h0, _⟩
   rotate_left
@@ -185,7 +215,7 @@ theorem file_write_marks_dirty_first (f : FileH) (buf : List Nat) (d : Dev) (hcl
       have hlog := hsp.2.2 hncur
       obtain ⟨items2, h3⟩ := run_logExtends _ _ _ _ h2
       refine ⟨items2 ++ [statusWrite d.fs true], by rw [h3, hlog]; simp, Or.inr ⟨items2, ?_⟩⟩
-      simp [statusWrite, encodeStatus_lt]
+      rfl
     · obtain ⟨items, h3, h4⟩ := setDirtyFlag_within true d h1
       exact ⟨items, h3, Or.inl h4⟩
 
@@ -243,5 +273,13 @@ example : (run unmountInternal (run (setDirtyFlag true) C12ex.dev16).2).2.log = 
 example : C12ex.dev16.fs.curDirty = false ∧
     ((run ((FileH.new none (some (DirEntryEditor.new (DirFileEntryData.new [] 0) 1024))).write [7, 8, 9])
       C12ex.dev16).2.log.getLast? = some (.write 0x25 [1])) := by decide +kernel
+
+/-- a volume mounted with status byte 0x84 (bits 2 and 7 set, clean): `set_dirty_flag(true)` writes 0x85, and
+    `unmount_internal` writes 0x84 back — the hypotheses of `unmount_restores_mount_byte` hold of this state -/
+example :
+    let d : Dev := { C12ex.dev16 with fs := { C12ex.fs16 with statusRaw := 0x84 } }
+    d.fs.statusRaw < 256 ∧ d.fs.bpbDirty = (d.fs.statusRaw % 2 == 1) ∧ d.fs.bpbIoErr = (d.fs.statusRaw / 2 % 2 == 1) ∧
+    (run unmountInternal (run (setDirtyFlag true) d).2).2.log = [.write 0x25 [0x84], .write 0x25 [0x85]] := by
+  decide
 
 end FatVerif
